@@ -421,6 +421,20 @@ def check_middleware(which, acc):
                     acc.violation({"oracle": "error_block_through_parse_string"}, {"case": case, "observed": [repr(b)[:200] for b in lib.blocks], "expected": "MiddlewareErrorBlock retaining entry k1, entry k2 split"})
 
 
+def check_in_flight(acc):
+    """Two passes in flight on one SplitNameParts / SeparateCoAuthors instance (C20's family), on libraries whose entries
+    hold invalid names in the first, a later and the last position: each error block retains ITS original entry."""
+    from bibtexparser.middlewares.names import MergeCoAuthors, MergeNameParts
+
+    from .c20 import check_same_instance_in_flight
+
+    sep = lambda text: (lambda: SeparateCoAuthors().transform(bibtexparser.parse_string(text)))
+    outer = sep("@a{o1, author = {Ann Lee and Bad, Name, With, Commas}, t = {x}}\n@a{o2, author = {Bo Ray}, editor = {Cy Dow and Trailing,}}\n@a{o3, author = {Di Eck}}\n")
+    inner = sep("@b{i1, author = {Ed Fox}}\n@b{i2, editor = {Also, Bad, Name, Here and Gil Hay}}\n")
+    check_same_instance_in_flight(acc, {"SplitNameParts": SplitNameParts}, outer, inner)
+    check_same_instance_in_flight(acc, {"SeparateCoAuthors": SeparateCoAuthors}, lambda: bibtexparser.parse_string("@a{o1, author = {Ann Lee and Bo Ray}}\n@a{o2, editor = {Cy Dow}}\n@a{o3, author = {Di Eck and Ed Fox and Gil Hay}}\n"), lambda: bibtexparser.parse_string("@b{i1, author = {Ed Fox and Al Eck}}\n@b{i2, t = {x}}\n"))
+
+
 DEEP = [10, 100, 500, 990, 1000, 1010, 2000, 5000]
 
 
@@ -469,6 +483,7 @@ def check_deep(acc):
 def run_shard(shard, tier, acc):
     kind = shard[0]
     if kind == "deep":
+        check_in_flight(acc)
         return check_deep(acc)
     if kind == "seq":
         for toks in seq_iter(SIGMA, shard[1]):
@@ -525,6 +540,8 @@ def finish(acc, tier):
 def replay(case, acc):
     if "deep" in case:
         return check_deep(acc)
+    if "same_instance_in_flight" in case:
+        return check_in_flight(acc)
     if "leak" in case:
         return run_shard(("leak", 0), "quick", acc)
     if "name_key_twice" in case:
